@@ -26,7 +26,10 @@ pub mod shims {
     pub struct WriteMode { _o: () }
     impl Clone for WriteMode { #[verifier::external_body] fn clone(&self) -> (r: WriteMode) ensures r == *self { unimplemented!() } }
     impl Copy for WriteMode {}
-    pub struct FileLogWriterConfig { pub write_mode: WriteMode }
+    /// SHIM: FileSpec as an opaque value with decidable equality (not compared by the code as it is)
+    pub struct FileSpec { _o: () }
+    impl PartialEq for FileSpec { #[verifier::external_body] fn eq(&self, o: &FileSpec) -> (r: bool) ensures r == (*self == *o) { unimplemented!() } }
+    pub struct FileLogWriterConfig { pub write_mode: WriteMode, pub file_spec: FileSpec }
     #[verifier::external_body]
     pub fn io_err(s: &'static str) -> std::io::Error { unimplemented!() }
 }
@@ -96,6 +99,7 @@ pub mod state_handle {
     use super::builder::*;
     use std::sync::{Arc, Mutex};
     type FormatFunction = VFormatFn;
+    broadcast use ax_same_val;
 
     //@ item src/writers/file_log_writer/state_handle.rs enum StateHandle
     //@   dropattr #[derive
@@ -103,6 +107,8 @@ pub mod state_handle {
 
     impl StateHandle {
         pub closed spec fn poisoned(&self) -> bool { match self { StateHandle::Sync(h) => mutex_poisoned(&*h.am_state) } }
+        /// the State behind the mutex after the call (prophecy oracle, A11)
+        pub closed spec fn state_after(&self) -> State { match self { StateHandle::Sync(h) => *mutex_after(&*h.am_state) } }
     //@ fn src/writers/file_log_writer/state_handle.rs impl StateHandle / fn plain_write
     //@   ret r
     //@   props C15
@@ -124,6 +130,8 @@ pub mod state_handle {
     //@   rule R3 *
     //@   req[reset.pre.perm] forall|b: &FileLogWriterBuilder| #[trigger] build_ok(b) <==> (b == flwb && exists|m: WriteMode| assert_result(flwb, m) is Ok)
     //@   ens[reset.post.ok] r is Ok ==> build_result(flwb) is Ok
+    //@   ens[reset.post.installed] r is Ok ==> self.state_after() == build_result(flwb)->Ok_0
+    //@   count 1 *state =
     //@   canary
     //@ fn src/writers/file_log_writer/state_handle.rs impl StateHandle / fn reopen_outputfile
     //@   ret r
